@@ -19,15 +19,14 @@ REPO = os.environ.get('VERIF_REPO', '/repo')
 
 # unit -> function -> list of replays
 REGISTRY = {
+    'sched': {'*': [dict(kind='egg', file='replays/sched/schedules.egg')]},
+    'merge': {'*': [dict(kind='egg', file='replays/merge/merge_and_subsume.egg')]},
+    'semi': {'*': [dict(kind='egg', file='replays/semi/seminaive.egg'), dict(kind='egg', file='replays/semi/seminaive.egg', args=('--naive',))]},
     'uf': {'*': [dict(kind='harness', name='uf_partition')]},
     'disp': {
         'clear': [dict(kind='harness', name='disp_clear')],
     },
-    'driver': {
-        'run_rules_inner': [dict(kind='egg', file='replays/driver/panic_before_rebuild.egg')],
-        'flush_updates_inner': [dict(kind='egg', file='replays/driver/panic_before_rebuild.egg')],
-        'rebuild': [dict(kind='egg', file='replays/driver/panic_before_rebuild.egg')],
-    },
+    'driver': {'*': [dict(kind='egg', file='replays/driver/panic_before_rebuild.egg'), dict(kind='egg', file='replays/semi/seminaive.egg')]},
 }
 
 
